@@ -30,4 +30,24 @@ CHECKS = {
     "C10": rapid("TestC10",
         "case = one adversarial-asynchronous world; non-trivial = a timeout of the current epoch was consumed or a view changed; distinct = hash of the choice stream",
         1500, 40000),
+    "C05": rapid("TestC05",
+        "case = one multi-height adversarial-asynchronous world (up to 5 heights, delayed Reset, ledger sync skipping heights, 40% with validator lists changing size/membership/own index, leftover and early cross-height traffic); "
+        "non-trivial = a re-initialisation was checked in a run with skipped heights, a changing validator set, early traffic for the new height or calls arriving after the decision; distinct = hash of the choice stream",
+        600, 15000),
+    "C07": rapid("TestC07",
+        "case = one adversarial-asynchronous world with anti-MEV off / on from genesis / switching on at the 2nd height, scripted ProcessPreBlock/ProcessBlock failures, early pre-commits; "
+        "non-trivial = (an anti-MEV commit was checked in a run with early deliveries or a failing pre-block callback) or a pre-commit was delivered while anti-MEV was off; distinct = hash of the choice stream",
+        1500, 40000),
+    "C11": rapid("TestC11",
+        "case = one adversarial-asynchronous world used as a random prefix, with probe actions: one inadmissible input of each listed class or the re-delivery of a stored payload, whole-state fingerprint compared before/after; every API call runs under panic capture; "
+        "non-trivial = a probe hit a node with >=2 non-empty tables; distinct = hash of the choice stream",
+        600, 15000),
+    "C12": rapid("TestC12",
+        "case = one adversarial-asynchronous world with many transactions unknown to some nodes, supplied in drawn order interleaved with everything else; "
+        "non-trivial = an obligation with >=2 requested transactions and >=1 other event between the supplies was checked; distinct = hash of the choice stream",
+        1500, 40000),
+    "C13": rapid("TestC13",
+        "case = one adversarial-asynchronous world with a non-validator observer and (1/3) a validator carrying the watch-only flag; "
+        "non-trivial = the watch-only index was primary of some (height, view) the node entered; distinct = hash of the choice stream",
+        1500, 40000),
 }
